@@ -108,3 +108,17 @@ Definition oracle_ec (data : list N) (k : nat) : list N := poly_rem data (rs_gen
 Definition oracle_rs_stream (v l : nat) (cw data : list N) : bool :=
   forallb (fun b : list N * list N => forallb (N.eqb 0) (syndromes (fst b ++ snd b) (iso_ec v l))) (iso_blocks_of v l cw)
   && list_eqb N.eqb (iso_deinterleave_data v l cw) (firstn (iso_data_codewords v l) data).
+
+(* C08 by ISO region (not by the implementation's own labels): after = before with exactly the encoding-region cells
+   satisfying the Table 10 condition toggled, for a matrix of a real symbol size *)
+Definition oracle_mask_iso (k : nat) (before after : list (list N)) : bool :=
+  match version_of_size (length before) with
+  | None => false
+  | Some v =>
+      let n := length before in
+      all2 (fun (ra : nat * (list N * list region)) (rb : list N) =>
+              all2 (fun (ca : nat * (N * region)) (cb : N) =>
+                      N.eqb cb (if is_rdata (snd (snd ca)) && iso_cond k (fst ra) (fst ca) then N.lxor (fst (snd ca)) 1 else fst (snd ca)))
+                   (combine (seq 0 n) (combine (fst (snd ra)) (snd (snd ra)))) rb)
+           (combine (seq 0 n) (combine before (iso_region_map v))) after
+  end.
